@@ -23,7 +23,9 @@ EXTENDS Integers, Sequences, FiniteSets, TLC
 CONSTANTS DeliverPhase,     \* "end" | "start"
           ImrVals,          \* values firmware writes to IMR
           MaxDepth, RecordActs, MaxNest,
-          AckOnReturn       \* does RETI clear the status bit of the source the handler was entered for
+          AckOnReturn,      \* does RETI clear the status bit of the source the handler was entered for
+          PcMod             \* 0: positions count up (behaviours are replayable programs); k > 0: positions wrap modulo k, which
+                            \* makes the state space finite so that MaxDepth < 0 (no depth bound) explores runs of every length
 
 Src == {0, 1, 2, 3}          \* MTI STI KEY ONK
 Prio == <<2, 3, 0, 1>>       \* KEY > ONK > MTI > STI
@@ -47,7 +49,7 @@ vars == <<imr, isr, power, pc, flags, frames, delivered, last, timersOn, ack, ac
 Rec(a) == IF RecordActs THEN Append(acts, a) ELSE acts
 InInt == frames # <<>>
 Enabled(m, s) == Bit(m, 7) = 1 /\ (BitsOf(m) \cap s) # {}
-Advance(p) == [p EXCEPT ![Len(p)] = @ + 1]
+Advance(p) == [p EXCEPT ![Len(p)] = IF PcMod > 0 THEN (@ + 1) % PcMod ELSE @ + 1]
 
 Init == /\ imr = 0 /\ isr = {} /\ power = "run" /\ pc = <<"main", 0>> /\ flags = 0 /\ frames = <<>>
         /\ delivered = FALSE /\ last = "Init" /\ timersOn = TRUE /\ ack = {} /\ acts = <<>> /\ depth = 0
@@ -75,7 +77,7 @@ Alphabet == {[k |-> "NOP"], [k |-> "ALU"], [k |-> "HALT"], [k |-> "OFF"]}
 
 \* what an instruction may acknowledge: the bits the firmware names, or the source of the frame a RETI returns from
 MayAck(ins) == IF ins.k = "CLRISR" THEN ins.m ELSE IF ins.k = "RETI" /\ AckOnReturn THEN {frames[Len(frames)].src} ELSE {}
-Bound(name, a) == depth < MaxDepth /\ depth' = depth + 1 /\ acts' = Rec(a) /\ last' = name
+Bound(name, a) == (MaxDepth < 0 \/ depth < MaxDepth) /\ depth' = (IF MaxDepth < 0 THEN 0 ELSE depth + 1) /\ acts' = Rec(a) /\ last' = name
 
 \* ---- one CPU step
 StepRun(ins) ==
